@@ -827,8 +827,12 @@ def midframe_close(rng, i):
     steps.append(op("A", "qos"))
     k = rng.choice([1, 5, 7, 8, 9, 20, 33, 34, 40, 56, 57, 58, 60, 100, 1000, 4150, 4160, 4200])
     steps.append({"do": "budget", "n": k})
-    steps.append(op("A", "publish", len=rng.choice([5000, 9000, 300] if k <= 100 else [5000, 9000]), pid=70 * i + 1))
-    if rng.random() < 0.5:
+    first_pub = op("A", "publish", len=rng.choice([5000, 9000, 300] if k <= 100 else [5000, 9000]), pid=70 * i + 1)
+    if i % 10 == 8:
+        # (with the tiny high-water mark and queue bound of this variant the publish itself blocks half-way)
+        first_pub["async"] = True
+    steps.append(first_pub)
+    if rng.random() < 0.5 and i % 10 != 8:
         steps.append(op("B", "declare_nowait", q="behind"))
     cfgx = {}
     blocked_pub = False
@@ -862,6 +866,7 @@ def midframe_close(rng, i):
     steps.append({"do": "budget", "n": None})
     steps.append({"do": "sync"})
     if blocked_pub:
+        steps.append({"do": "wait", "who": "A"})
         steps.append({"do": "wait", "who": "B"})
     steps.append(op("A", "qos"))
     steps.append(op("B", "qos"))
